@@ -136,12 +136,14 @@ def run(ctx):
     c09a(ctx)
     seen = set()
     units = []
-    for tu in ctx.units(lambda n: n.startswith("core") or n.startswith("repo_ct") or n.startswith("coro")):
-        if tu.find(A["dispatch"]):
+    seen11 = set()
+    for tu in ctx.units(lambda n: n.startswith("core") or n.startswith("repo_ct") or n.startswith("coro") or n == "cpp11"):
+        if tu.find(A["dispatch"]) and tu.name != "cpp11":
             c09b(ctx, tu)
-        c09c(ctx, tu, seen)
+        c09c(ctx, tu, seen11 if tu.name == "cpp11" else seen)
         units.append({"unit": tu.name, "functions": len(tu.fns)})
     ctx.floor("C09.c clause macro kinds seen", len(seen), 8)
+    ctx.floor("C09.c clause macro kinds seen in the C++11 macro API", len(seen11), 8)
     C08.c08g(ctx)
     ctx.extra["units"] = units
     ctx.extra["exhaustive"] = True
